@@ -1,5 +1,6 @@
 import Mathlib.Tactic.Ring
 import Mathlib.Tactic.NormNum
+import Model.Lib.MatrixIndex
 /-!
 # C19 — rtllib Matrix: index arithmetic and width sufficiency
 
@@ -111,5 +112,41 @@ theorem width_exact_matmul (n ba bb : Nat) (hn : 1 ≤ n) (hbits : 1 ≤ ba + bb
   omega
 
 example : (1 * 3 + 2) / 3 = 1 ∧ (1 * 3 + 2) % 3 = 2 := by decide
+
+/-! ### one cell addressed by an integer index (element access, `m[k, j] = v`) -/
+section CellIndex
+open Pyrtl.MatrixIndex
+
+/-- every index `-n ≤ k < n` addresses exactly one cell, the `k`-th (from the end when negative) -/
+theorem cell_slice_single (n : Nat) (k : Int) (h1 : -(n : Int) ≤ k) (h2 : k < n) :
+    cellSlice n k = some (if k < 0 then k + n else k, (if k < 0 then k + n else k) + 1) := by
+  unfold cellSlice checked normBound
+  by_cases hk : k = -1
+  · subst hk; simp; omega
+  · by_cases hneg : k < 0
+    · have : k + 1 < 0 := by omega
+      simp [hk, hneg, this]; omega
+    · have : ¬ (k + 1 < 0) := by omega
+      simp [hk, hneg, this]; omega
+
+/-- every other index is refused -/
+theorem cell_slice_refused (n : Nat) (k : Int) (h : k < -(n : Int) ∨ (n : Int) ≤ k) : cellSlice n k = none := by
+  unfold cellSlice checked normBound
+  by_cases hk : k = -1
+  · subst hk; simp; omega
+  · by_cases hneg : k < 0
+    · by_cases h1 : k + 1 < 0 <;> simp [hk, hneg, h1] <;> omega
+    · have : ¬ (k + 1 < 0) := by omega
+      simp [hk, hneg, this]; omega
+
+/-- the defect repaired in 7a54e23: before it, the index -1 gave the empty slice `n-1 : 0` on every axis -/
+theorem old_cell_slice_minus_one_empty (n : Nat) (hn : 1 ≤ n) : cellSliceOld n (-1) = some ((n : Int) - 1, 0) := by
+  unfold cellSliceOld checked normBound
+  simp; omega
+
+example : cellSlice 4 (-1) = some (3, 4) ∧ cellSlice 4 (-4) = some (0, 1) ∧ cellSlice 4 4 = none ∧ cellSlice 4 (-5) = none := by
+  decide
+
+end CellIndex
 
 end Pyrtl.C19
